@@ -24,6 +24,7 @@ import itertools
 import json
 import os
 import random
+import re
 from contextlib import redirect_stderr
 
 from harness import core
@@ -34,7 +35,10 @@ TITLE = "Incompatible schema versions are refused, and migration preserves every
 LEAN_MODULE = "Signac.Properties.C20"
 DRIVER = "drv_mig"
 DESIGN_REF = "DESIGN.md §4 C20"
-RULE = ("product of layout {signac.rc, .signac/config} x schema_version {absent,0,1,2,3,10} x 9 project names "
+RULE = ("37 spellings of schema_version (integers with sign / zeros / underscores, decimals, pre-release tags, words) x '
+        "layout, each through Project / get_project / init_project / apply_migrations; random ASCII strings against "
+        "Python's int(); a legacy project 1-2 levels below a current / legacy / newer project; and the "
+        "product of layout {signac.rc, .signac/config} x schema_version {absent,0,1,2,3,10} x 9 project names "
         "(None, plain, spaces, quotes of both kinds, punctuation incl. ',', '#', '=', '[', padded, empty) x "
         "workspace_dir {default, explicit 'workspace', custom, nested custom, custom colliding with an empty / "
         "populated / file 'workspace', custom but missing} x v1 cache x v1 history; 0-5 jobs with documents and "
@@ -82,7 +86,38 @@ def _finish(cfg, rng):
     return c
 
 
+# schema versions as they can be SPELLED in a config file (the value is a string; the code applies int())
+VER_SPELLINGS = ["2", "02", "+2", "002", "2.0", "2.1", "2.10", "2.0.1", "2rc1", "2a", "two", "2_0", "2_", "_2", "1_0",
+                 "-2", "+-2", "2 0", "1e1", "0x2", "2e0", ".2", "2.", "1.0", "3.0", "1", "01", "+1", "0", "00", "-0",
+                 "3", "20", "200", "9999", "18446744073709551618", "-1"]
+_PYINT = re.compile(r"^[+-]?[0-9]+(_[0-9]+)*$")
+
+
+def ref_pyint(s):
+    """Independent reading of an ASCII decimal integer literal as Python's int() accepts it (None: ValueError)."""
+    t = s.strip(" \t\n\r\x0b\x0c")
+    if not _PYINT.match(t):
+        return None
+    sign = -1 if t[0] == "-" else 1
+    n = 0
+    for ch in t.lstrip("+-"):
+        if ch != "_":
+            n = n * 10 + (ord(ch) - 48)
+    return sign * n
+
+
 def generate(tier, rng):
+    for layout in ("v2", "rc"):
+        for vs in VER_SPELLINGS:
+            yield {"kind": "verstr", "layout": layout, "ver_s": vs, "njobs": 2, "seed": 7}
+    for _ in range(20 if tier == "quick" else 400):
+        alpha = rng.choice(["02_+- \n.", "0123456789_+- \t\n\r\x0b\x0c.ex\x1c\x00", "0129_", "2 +-"])
+        yield {"kind": "pyint", "strings": ["".join(rng.choice(alpha) for _ in range(rng.choice([0, 1, 2, 3, 4, 5, 8])))
+                                            for _ in range(100)]}
+    for ver in (None, 0, 1):
+        for depth in (1, 2):
+            for outer in ("current", "legacy", "newer"):
+                yield {"kind": "nest", "ver": ver, "depth": depth, "outer": outer, "njobs": 2, "seed": 11}
     cfgs = list(all_configs())
     for rep in range(6 if tier == "quick" else 30):
         for c in cfgs:
@@ -96,6 +131,8 @@ def search(rng, deadline):
 
 
 def shrink(case):
+    if case.get("kind") in ("verstr", "nest", "pyint"):
+        return
     if case["njobs"] > 0:
         yield dict(case, njobs=case["njobs"] - 1)
         yield dict(case, njobs=0)
@@ -362,7 +399,180 @@ def expected_content(jobs):
 # ----------------------------------------------------------------------------
 # the case
 # ----------------------------------------------------------------------------
+def run_verstr(case, ctx):
+    """A config file spelling the version as an arbitrary token: opened iff the token is an integer literal equal to
+    the supported version; refused (any exception), tree untouched, otherwise - also by the migration."""
+    import signac
+    from signac.version import SCHEMA_VERSION
+
+    schema = int(SCHEMA_VERSION)
+    base = ctx.fresh_dir("c20v")
+    oracle, answers = [], []
+    vs = case["ver_s"]
+    rc = case["layout"] == "rc"
+    val = ref_pyint(vs)
+    jobs = job_data(case)
+
+    def mk(n):
+        d = os.path.join(base, "p%d" % n)
+        os.mkdir(d)
+        with open(os.path.join(d, "README.txt"), "w") as f:
+            f.write("unrelated\n")
+        if rc:
+            with open(os.path.join(d, "signac.rc"), "w") as f:
+                f.write("project = p\nschema_version = %s\n" % vs)
+        else:
+            os.mkdir(os.path.join(d, ".signac"))
+            with open(os.path.join(d, ".signac", "config"), "w") as f:
+                f.write("schema_version = %s\n" % vs)
+        write_jobs(os.path.join(d, "workspace"), jobs)
+        return d
+
+    try:
+        calls = [("Project", lambda d: signac.Project(d)), ("get_project", lambda d: signac.get_project(d)),
+                 ("get_project(search=False)", lambda d: signac.get_project(d, search=False)),
+                 ("init_project", lambda d: signac.init_project(d)), ("apply_migrations", migrate_raise)]
+        for n, (name, fn) in enumerate(calls):
+            d = mk(n)
+            s0 = tree_snapshot(d)
+            try:
+                r = fn(d)
+                res = "ok"
+                if name != "apply_migrations" and r.path != d:
+                    res = "ok-elsewhere"
+            except Exception as e:
+                res = exc_name(e)
+            s1 = tree_snapshot(d)
+            answers.append(res)
+            if name == "apply_migrations" and rc and val in (0, 1):
+                continue     # a well-formed legacy project is migrated (covered by the main family)
+            if s1 != s0:
+                oracle.append("%s on a %s declaring schema_version = %s changed the tree: %s" % (
+                    name, "signac.rc" if rc else ".signac/config", vs, diff_tokens(d, s0, s1)))
+            if val != schema:
+                try:
+                    same_number = "_" not in vs and float(vs) == schema   # "2.0", "2e0": the supported number, oddly spelled
+                except ValueError:
+                    same_number = False
+                if res.startswith("ok") and not same_number:
+                    oracle.append("%s accepted a %s declaring schema_version = %s (supported: %d)" % (
+                        name, "signac.rc" if rc else ".signac/config", vs, schema))
+            elif not rc and name != "apply_migrations" and res != "ok" and vs == str(schema):
+                # only the spelling signac writes itself must open; other spellings of the same integer may be refused
+                oracle.append("%s refused an up-to-date project (schema_version = %s): %s" % (name, vs, res))
+    finally:
+        ctx.cleanup(base)
+    tags = ["verstr:" + ("int-current" if val == schema else "int-other" if val is not None else "not-an-int"),
+            "layout=" + case["layout"]] + ["verstr-answer:" + a for a in sorted(set(answers))]
+    model, impl = [], []
+    if not rc:
+        # the Lean model of int() on the config value and of the gate (Signac/PyInt.lean) against Project(path)
+        model = ["vgate " + hx(vs), "pyint " + hx(vs)]
+        impl = [{"ok": "ok", "IncompatibleSchemaVersion": "incompatible", "ValueError": "valueError"}.get(answers[0], answers[0])]
+        try:
+            impl.append(str(int(vs)))
+        except ValueError:
+            impl.append("none")
+    return {"model": model, "impl": impl, "oracle": oracle, "tags": tags, "key": json.dumps(["verstr", case["layout"], vs])}
+
+
+def run_nest(case, ctx):
+    """A legacy (signac.rc) project sitting BELOW another project: the enclosing project must not switch the
+    refusal off.  Project(inner), get_project(inner, search=False) and init_project(inner) refuse and leave the tree
+    alone; the migration of the inner project still works and keeps every job."""
+    import signac
+
+    base = ctx.fresh_dir("c20n")
+    oracle, answers = [], []
+    jobs = job_data(case)
+
+    def mk(n):
+        root = os.path.join(base, "p%d" % n)
+        os.makedirs(os.path.join(root, ".signac") if case["outer"] != "legacy" else root)
+        if case["outer"] == "legacy":
+            with open(os.path.join(root, "signac.rc"), "w") as f:
+                f.write("project = outer\n")
+        else:
+            with open(os.path.join(root, ".signac", "config"), "w") as f:
+                f.write("schema_version = %d\n" % (2 if case["outer"] == "current" else 3))
+        os.makedirs(os.path.join(root, "workspace"), exist_ok=True)
+        inner = os.path.join(root, *(["sub", "more"][:case["depth"]]), "legacy")
+        os.makedirs(inner)
+        with open(os.path.join(inner, "signac.rc"), "w") as f:
+            f.write("project = inner\nworkspace_dir = my_ws\n")
+            if case["ver"] is not None:
+                f.write("schema_version = %d\n" % case["ver"])
+        write_jobs(os.path.join(inner, "my_ws"), jobs)
+        return root, inner
+
+    try:
+        calls = [("Project", lambda d: signac.Project(d)), ("get_project(search=False)", lambda d: signac.get_project(d, search=False)),
+                 ("init_project", lambda d: signac.init_project(d))]
+        for n, (name, fn) in enumerate(calls):
+            root, inner = mk(n)
+            s0 = tree_snapshot(root)
+            try:
+                r = fn(inner)
+                res = "ok:" + os.path.relpath(r.path, root)
+            except Exception as e:
+                res = exc_name(e)
+            s1 = tree_snapshot(root)
+            answers.append(res)
+            if res.startswith("ok"):
+                oracle.append("%s(<legacy project below a %s project>) returned a project (%s) instead of refusing "
+                              "(signac.rc declaring schema_version %r)" % (name, case["outer"], res[3:], case["ver"]))
+            if s1 != s0:
+                oracle.append("%s(<legacy project below a %s project>) changed the tree: %s" % (
+                    name, case["outer"], diff_tokens(root, s0, s1)))
+        root, inner = mk(len(calls))
+        outer0 = [e for e in tree_snapshot(root) if not e[0].startswith(os.path.relpath(inner, root))]
+        err = migrate(inner)
+        if err is not None:
+            oracle.append("apply_migrations failed on a well-formed legacy project below a %s project: %s: %s" % (
+                case["outer"], exc_name(err), err))
+        else:
+            try:
+                got = read_project(inner)
+            except Exception as e:  # noqa: BLE001
+                got = None
+                oracle.append("migrated inner project does not open: %s: %s" % (exc_name(e), e))
+            if got is not None and got != expected_content(jobs):
+                oracle.append("jobs of the inner project after the migration: %s, expected %s" % (
+                    sorted(got), sorted(expected_content(jobs))))
+        outer1 = [e for e in tree_snapshot(root) if not e[0].startswith(os.path.relpath(inner, root))]
+        if outer1 != outer0:
+            oracle.append("migrating the inner project changed the enclosing one")
+    finally:
+        ctx.cleanup(base)
+    tags = ["nest:outer=" + case["outer"], "nest:depth=%d" % case["depth"]] + ["nest-answer:" + a.split(":")[0] for a in answers]
+    return {"model": [], "impl": [], "oracle": oracle, "tags": tags,
+            "key": json.dumps(["nest", case["ver"], case["depth"], case["outer"]])}
+
+
+def migrate_raise(d):
+    err = migrate(d)
+    if err is not None:
+        raise err
+
+
 def run_case(case, ctx):
+    if case.get("kind") == "verstr":
+        return run_verstr(case, ctx)
+    if case.get("kind") == "nest":
+        return run_nest(case, ctx)
+    if case.get("kind") == "pyint":
+        # Python's int() on ASCII strings against the Lean model `pyInt` (the conversion the version gate applies)
+        model, impl, oracle = [], [], []
+        for t in case["strings"]:
+            model.append("pyint " + hx(t))
+            try:
+                got = int(t)
+            except ValueError:
+                got = None
+            impl.append("none" if got is None else str(got))
+            if got != ref_pyint(t):
+                oracle.append("int(%r) = %r, the reference reading gives %r" % (t, got, ref_pyint(t)))
+        return {"model": model, "impl": impl, "oracle": oracle, "tags": ["pyint-batch"], "key": json.dumps(case["strings"])}
     import signac
     from signac.version import SCHEMA_VERSION
 
@@ -524,7 +734,11 @@ LEVEL_TEXT = ("Proved in Lean: the gate lets exactly SCHEMA_VERSION (regenerated
               "entry alone and keeps all project-document keys (migrate_preserves); a workspace that would be overwritten "
               "makes it fail with nothing moved (migrate_refuses_collision); up-to-date and migrated projects are fixed "
               "points (migrate_uptodate_noop, migrate_idempotent); newer projects are refused untouched "
-              "(migrate_refuses_newer). The compiled model is compared with the real functions on every configuration "
+              "(migrate_refuses_newer). The config value is a STRING: Python's int() on it is modelled (Signac/PyInt.lean, "
+              "pyInt) and the gate on strings is proved to accept exactly the spellings of SCHEMA_VERSION as an integer "
+              "literal (gateStr_exact), never a string containing a character outside digits/_/+/-/blanks (pyInt_rejects; "
+              "'2.1', '2rc1' raise ValueError: gateStr_no_dot), to agree with the numeric gate on every number signac itself "
+              "writes (pyInt_repr, gateStr_nat, gateStr_declared). The compiled model is compared with the real functions on every configuration "
               "(result class and the complete observed final state of the project root).")
 LEVEL_NOTE = ("Trusted: Lean kernel; axioms propext/Classical.choice/Quot.sound; the harness (hand-written project builder, "
               "observer that digests sub-trees into tokens, content oracle). Job data is an opaque token in the model: "
@@ -532,4 +746,8 @@ LEVEL_NOTE = ("Trusted: Lean kernel; axioms propext/Classical.choice/Quot.sound;
               "oracle re-reads it through the real signac. configobj quoting, os.replace and the JSON save are modelled, "
               "not verified. Crash points inside the chain are not covered here (C11). A configured but missing workspace "
               "directory makes the real migration fail after the 0->1 bump; the model reproduces it, the theorems exclude "
-              "it by the well-formedness hypothesis.")
+              "it by the well-formedness hypothesis. pyInt is ASCII only (CPython also accepts Unicode digits and blanks: "
+              "pyInt_non_ascii states the boundary) and ignores the 4300-digit limit (pyIntLim_sound: irrelevant below 640 "
+              "digits); both are compared with the real int() on generated strings. A legacy project nested below another "
+              "project and 37 spellings of the version are judged by the direct oracle (spellings that denote the supported "
+              "number in another way, '2.0', '+2', are don't-care).")
